@@ -77,7 +77,13 @@ class JobControl:
         self._lock = threading.RLock()
 
     def clear_queue(self) -> None:
-        self._queue.clear()
+        # Under the lock: _run_next_job() tests the length of the queue and
+        # then pops from it.
+        if self._acquire_lock():
+            try:
+                self._queue.clear()
+            finally:
+                self._release_lock()
 
     def add_job(self, job, name=None):
         return self._enqueue_job(job, self._queue.append, name)
